@@ -191,33 +191,36 @@ Definition parse_op (ts : list tok) : option (option N * op2 * list tok) :=
 (** run the ops of a case, emitting one observation line per observed op;
     [7 b] switches observation on/off (switching on emits the current state);
     [fuel] bounds the number of ops (the token count is enough) *)
-Fixpoint run_ops (fuel : nat) (obs : bool) (st : state2) (ts : list tok) : list (list tok) :=
+Fixpoint run_ops (query : state2 -> list tok) (fuel : nat) (obs : bool) (st : state2) (ts : list tok) : list (list tok) :=
   match fuel with
   | O => []
   | S f =>
     match ts with
     | [] => []
     | TZ 7 :: TZ b :: rest =>
-      if (b =? 0)%Z then run_ops f false st rest
-      else (dump_result (ROk 0) ++ dump2 st) :: run_ops f true st rest
+      if (b =? 0)%Z then run_ops query f false st rest
+      else (dump_result (ROk 0) ++ dump2 st) :: run_ops query f true st rest
+    | TZ 8 :: rest =>
+      if obs then (dump_result (ROk 0) ++ query st) :: run_ops query f obs st rest
+      else run_ops query f obs st rest
     | _ =>
       match parse_op ts with
       | None => [[TZ (-1)]]                       (* malformed case: visible in the diff *)
       | Some (fa, o, rest) =>
         let '(r, st') := step2 fa st o in
         let st'' := compact2 st' in
-        if obs then (dump_result r ++ dump2 st'') :: run_ops f obs st'' rest
-        else run_ops f obs st'' rest
+        if obs then (dump_result r ++ dump2 st'') :: run_ops query f obs st'' rest
+        else run_ops query f obs st'' rest
       end
     end
   end.
 
 (** case = mask n0 op* ; the initial map is CMapBuilder::from_n_darts(n0) with the masked kinds *)
-Definition run_case2 (ts : list tok) : list (list tok) :=
+Definition run_case2 (query : state2 -> list tok) (ts : list tok) : list (list tok) :=
   match ts with
   | TZ mask :: TZ n0 :: rest =>
       let st := empty2 (zN n0) (kinds_of_mask (zN mask)) in
-      (dump_result (ROk 0) ++ dump2 st) :: run_ops (length rest) true st rest
+      (dump_result (ROk 0) ++ dump2 st) :: run_ops query (length rest) true st rest
   | _ => [[TZ (-1)]]
   end.
 
@@ -306,11 +309,13 @@ Definition obs_state (ts : list tok) : option state2 :=
 (** C01, one step: a well-formed pre-state and an in-contract op give a well-formed post-state *)
 Definition oracle_wf2_step (ts : list tok) : list (list tok) :=
   match split_step ts with
+  | Some (_, TZ 8 :: _, _) => [[TZ 2]]
   | Some (pre, op, post) =>
     match obs_state pre, obs_state post with
     | Some st, Some st' =>
       match op with
       | TZ 7 :: _ => [[if wf2b (nd st') (mem st') then TZ 1 else TZ 2]]
+      | TZ 8 :: _ => [[TZ 2]]
       | _ =>
         match parse_op op with
         | Some (fa, o, []) =>
